@@ -89,7 +89,7 @@ def _(self, cfg, input_step):
     ensures("C08.check_before_fill", not called_before("interpolated_disparity", "disparity_checking"))
 
 
-@contract("pandora.state_machine.PandoraMachine.run_multiscale", props=["C08", "C01"])
+@contract("pandora.state_machine.PandoraMachine.run_multiscale", props=["C08", "C01", "C15"])
 def _(self, cfg, input_step):
     types(cfg="opaque", input_step="opaque")
     option(glue=True)
@@ -183,6 +183,8 @@ def _(self, cfg, input_step):
     ensures("C20.non_cumulative", ncalls("add_non_cumulative") == 1 and ncalls("add_cumulative") == 0
             and call_mentions("add_non_cumulative", 0, "(input_step, <AbstractFilter"))
     ensures("C20.step", call_mentions("AbstractFilter", 0, "step=self.step"))
+    # min(rows, cols, ...) of the bilateral margin is taken over the image the filter is told about: (rows, cols) of the left image
+    ensures("C20.image_shape", call_mentions("AbstractFilter", 0, "image_shape=(self.left_img.sizes['row'], self.left_img.sizes['col'])"))
 
 
 @contract("pandora.state_machine.PandoraMachine.optimization_check_conf", props=["C05", "C20"])
